@@ -185,6 +185,9 @@ class Ctx:
             pass
         if m:
             return int(m.group(1)), int(m.group(2))
+        m = re.search(r"The number of states generated: (\d+)", out)
+        if m:  # simulation mode
+            return int(m.group(1)), int(m.group(1))
         return 0, 0
 
     def tlc_mc(self, spec, cfg, workers=8, timeout=1200, env=None, extra=None, expect_ok=True, heap="8g", label=None):
